@@ -2,6 +2,7 @@
 Writer's operations.  Each operation is specified by what it appends to the user's stream
 (always at the append position -- the header is never touched) and by what it leaves in
 the pending-block buffer; a failed write leaves both exactly as they were."""
+from pyvc.dsl import is_data
 from pyvc.contracts import target, external, R, implies, table_key
 import spec.core as S
 import spec.avro as A
@@ -162,6 +163,37 @@ class write_anydatum:
     modifies = ["self"]
     call_behaviors = dict(write_data="anydatum", dump="default")
     raises = [R("Exception", must=False,
+                ensures=lambda self: (self.io._fo.data == old.self.io._fo.data and self.io._fo.pos == old.self.io._fo.pos
+                                      and self.block_count == old.self.block_count
+                                      and self.encoder._fo.data == old.self.encoder._fo.data
+                                      and self.encoder._fo.pos == old.self.encoder._fo.pos))]
+    ensures = lambda self, result: self.encoder._fo.data.startswith(old.self.encoder._fo.data)
+
+
+@target(W, "Writer.write", behavior="validating")
+class write_validating:
+    """C10: a writer with validation enabled rejects everything validate rejects (ValidationError)
+    before any byte of that record is buffered or emitted; C07: nor does any other failure leave a trace"""
+    types = dict(self="WriterV", record="py")
+    requires = lambda self, record: (
+        is_data(record)
+        and self.encoder._fo.pos == len(self.encoder._fo.data)
+        and self.io._fo.pos == len(self.io._fo.data)
+        and 0 <= self.block_count and self.block_count < S.LONG_MAX
+        and isinstance(self.sync_interval, int)
+        and (self.compression_level is None or isinstance(self.compression_level, int))
+        and A.WF(self.schema, self._named_schemas)
+        and implies(isinstance(self.schema, dict), "logicalType" not in self.schema)
+        and A.DEFAULTS_DATA(self.schema, self._named_schemas, self.options))
+    modifies = ["self"]
+    call_behaviors = dict(_validate="raising", write_data="anydatum", dump="default")
+    raises = [R("ValidationError",
+                when=lambda self, record: not A.VALID(record, self.schema, self._named_schemas, self.options),
+                ensures=lambda self: (self.io._fo.data == old.self.io._fo.data and self.io._fo.pos == old.self.io._fo.pos
+                                      and self.block_count == old.self.block_count
+                                      and self.encoder._fo.data == old.self.encoder._fo.data
+                                      and self.encoder._fo.pos == old.self.encoder._fo.pos)),
+              R("Exception", must=False,
                 ensures=lambda self: (self.io._fo.data == old.self.io._fo.data and self.io._fo.pos == old.self.io._fo.pos
                                       and self.block_count == old.self.block_count
                                       and self.encoder._fo.data == old.self.encoder._fo.data
